@@ -708,7 +708,7 @@ class Take:
                 p['slice'] = [start, stop, step]
             newshape = (len(range(*slice(*p['slice']).indices(n))),)
         elif style == 'get':
-            p['item'] = int(pool.rng.integers(-n, n))
+            p['item'] = int(pool.rng.integers(0, n))
             newshape = ()
         else:  # range + offset
             m = int(pool.rng.integers(0, n + 1))
